@@ -5,6 +5,7 @@ package verifrt
 
 import (
 	"fmt"
+	"reflect"
 	"sort"
 
 	"verif/explore"
@@ -152,4 +153,78 @@ func permutations(n int) [][]int {
 	}
 	permCache[n] = out
 	return out
+}
+
+// ---- start-of-process values of run-time-written package-level variables ----
+
+type coldVar struct {
+	name    string
+	restore func()
+}
+
+var cold []coldVar
+
+// ColdNames lists the captured variables.
+func ColdNames() []string {
+	var out []string
+	for _, c := range cold {
+		out = append(out, c.name)
+	}
+	return out
+}
+
+// ColdCapture remembers the current value of each variable (given by address): maps and
+// slices are copied, sync / atomic values are remembered as their zero value, everything else
+// is remembered by assignment (a pointer is remembered as the pointer). Called once, before
+// the first compilation of the process.
+func ColdCapture(names []string, ptrs []interface{}) {
+	for i, p := range ptrs {
+		e := reflect.ValueOf(p).Elem()
+		t := e.Type()
+		name := names[i]
+		cv := coldVar{name: name}
+		switch {
+		case t.Kind() == reflect.Map:
+			saved := cloneMap(e)
+			cv.restore = func() { e.Set(cloneMap(saved)) }
+		case t.Kind() == reflect.Slice:
+			saved := cloneSlice(e)
+			cv.restore = func() { e.Set(cloneSlice(saved)) }
+		case t.Kind() == reflect.Struct && (t.PkgPath() == "sync" || t.PkgPath() == "sync/atomic"):
+			cv.restore = func() { e.Set(reflect.Zero(t)) }
+		default:
+			saved := reflect.New(t).Elem()
+			saved.Set(e)
+			cv.restore = func() { e.Set(saved) }
+		}
+		cold = append(cold, cv)
+	}
+}
+
+// ColdRestore puts every captured variable back to its captured value.
+func ColdRestore() {
+	for _, c := range cold {
+		c.restore()
+	}
+}
+
+func cloneMap(v reflect.Value) reflect.Value {
+	if v.IsNil() {
+		return reflect.Zero(v.Type())
+	}
+	m := reflect.MakeMapWithSize(v.Type(), v.Len())
+	it := v.MapRange()
+	for it.Next() {
+		m.SetMapIndex(it.Key(), it.Value())
+	}
+	return m
+}
+
+func cloneSlice(v reflect.Value) reflect.Value {
+	if v.IsNil() {
+		return reflect.Zero(v.Type())
+	}
+	s := reflect.MakeSlice(v.Type(), v.Len(), v.Cap())
+	reflect.Copy(s, v)
+	return s
 }
